@@ -38,7 +38,7 @@ SPEC = {
                  "C06_skeleton_get", "C06_skeleton_has", "C06_skeleton_compute", "C06_skeleton_set", "C06_skeleton_delete",
                  "C06_skeleton_store_get", "C06_skeleton_store_has", "C06_skeleton_store_set", "C06_skeleton_store_delete",
                  "C06_skeleton_store_iterate",
-                 "C06_code_refines_model", "C06_code_coherent_failure_atomic"],
+                 "C06_code_refines_model", "C06_code_coherent_failure_atomic", "C06_code_lock_discipline"],
     "trusted_base": ["hand-written models Hive/Model/TypedValue.lean, TypedStore.lean, TypedConc.lean of kvstore/typedvalue.go and typedstore.go, "
                      "tied by differential execution with fault injection (harness/c06)",
                      "Go toolchain, compiled Lean driver, Go's sync.RWMutex semantics as written in Hive/Model/TypedConc.lean"],
